@@ -1193,11 +1193,37 @@ def r12v(ctx, rep, rule="R12v"):
     if put is None:
         return
     weigher = None
-    for bb, t in put.calls():
-        c = callee(t) or ""
-        if c in facts.fns and c.startswith("marwood::vm::heap::") and not c.startswith(HEAP) and \
-                disc_switches(facts, facts.fns[c], "marwood::vm::vcell::VCell"):
-            weigher = facts.fns[c]
+
+    def find_weigher(f, depth):
+        for bb, t in f.calls():
+            c = callee(t) or ""
+            if c not in facts.fns or not c.startswith("marwood::vm::heap::"):
+                continue
+            if not c.startswith(HEAP):
+                if disc_switches(facts, facts.fns[c], "marwood::vm::vcell::VCell"):
+                    return facts.fns[c]
+            elif depth > 0 and c not in (HEAP + "put", HEAP + "maybe_put", HEAP + "alloc"):
+                w = find_weigher(facts.fns[c], depth - 1)
+                if w is not None:
+                    return w
+        return None
+    weigher = find_weigher(put, 2)
+
+    def writes_gate(path, depth=2):
+        """does this Heap method add to a field the gate reads (itself, or through a Heap method it calls)?"""
+        g = facts.fns.get(path)
+        if g is None or not path.startswith(HEAP):
+            return False
+        for bb, j, st in g.stmts():
+            lp = st["lhs"]
+            if lp["l"] == 1 and len(lp["p"]) >= 2 and lp["p"][0] == "*" and isinstance(lp["p"][1], dict) and lp["p"][1].get("n") in gate_fields:
+                return True
+        if depth > 0:
+            for bb, t in g.calls():
+                c = callee(t) or ""
+                if c.startswith(HEAP) and c not in (HEAP + "put", HEAP + "maybe_put", HEAP + "alloc", path) and writes_gate(c, depth - 1):
+                    return True
+        return False
     if weigher is None:
         rep.anchor_lost(rule, "the function Heap::put derives a stored value's weight with")
         return
@@ -1238,6 +1264,8 @@ def r12v(ctx, rep, rule="R12v"):
         for bb, t in f.calls():
             if callee(t) == HEAP + "alloc":
                 keeping.add(bb)
+            elif (callee(t) or "").startswith(HEAP) and callee(t) not in (HEAP + "put", HEAP + "maybe_put") and writes_gate(callee(t)):
+                charging.add(bb)
         for bb, j, st in f.stmts():
             if st["lhs"]["l"] == 0 and not st["lhs"]["p"] and st["rv"]["k"] == "use":
                 pa = op_place(st["rv"]["a"])
@@ -1270,7 +1298,7 @@ def r12v(ctx, rep, rule="R12v"):
                 "Heap::%s keeps a %s (returns it as it is, or stores it) on a path that adds nothing to Heap.{%s}: the weight %s gives "
                 "the kind never reaches run_gc's gate, and dead values of that kind held inline pile up unseen" % (
                     nm, kind, ", ".join(sorted(gate_fields)), weigher.short), bad)
-    rep.floor(rule, "weighed kinds x (put, maybe_put)", n, 14)
+    rep.floor(rule, "weighed kinds x (put, maybe_put)", n, 16)
 
 
 def _gate_every_instruction(facts):
